@@ -95,9 +95,20 @@ pub fn run_decode(api: Api, enc: &Encoded, payload: &[u8], s: &Sched, st: &mut S
         }
         consumed += c;
         produced += p;
-        let expect_boundary = enc.boundaries.contains(&consumed);
-        if r.on_boundary() != expect_boundary {
-            return Err(ctx(format!("is_on_chunk_boundary() = {} at coding offset {} (expected {})", r.on_boundary(), consumed, expect_boundary)));
+        // the boundary query is pinned only where its meaning is beyond doubt: true when the decoder sits in front of a size line
+        // (start, or a chunk's CRLF consumed), false when part of a chunk's data has been delivered and part is outstanding. What it
+        // says with a chunk's CRLF pending, after the last-chunk line, in the trailers or after the end is not stated anywhere
+        // (a change that reports "true whenever no chunk data is outstanding" keeps every statement) - measured, not asserted
+        let at_size_line = enc.boundaries.contains(&consumed);
+        let mid_chunk = produced > 0 && produced < payload.len() && enc.chunk_of[produced - 1] == enc.chunk_of[produced];
+        if at_size_line && !r.on_boundary() {
+            return Err(ctx(format!("is_on_chunk_boundary() = false at coding offset {}, in front of a size line", consumed)));
+        }
+        if mid_chunk && r.on_boundary() {
+            return Err(ctx(format!("is_on_chunk_boundary() = true at coding offset {} with {} bytes of the current chunk delivered and more outstanding", consumed, produced)));
+        }
+        if !at_size_line && !mid_chunk && r.on_boundary() {
+            st.class("boundary_query_true_outside_size_line_positions");
         }
         let ended = r.ended();
         if ended != (consumed == clen) {
@@ -656,7 +667,7 @@ x 3 of the 27 modes rotating with the pair index. enumeration 'limit': size line
 every single cut in and around the size lines x all modes. random: 0..30 chunks up to 70000 bytes (1 %: 2000..20000 chunks of 1..2 bytes), extensions with spaces, \
 quotes and obs-text, leading zeros, trailers, random cut sets incl. byte-by-byte stretches, random output cycles. Every run is followed by further bytes \
 (a next response, a stray CRLF and a response, chunk-looking bytes, bare CRLFs - rotating) that must stay untouched. Oracle per read: counts in range, output == next payload bytes, no read across two chunks while stop is \
-on, consumed never beyond the coding, is_on_chunk_boundary() <=> offset is a chunk boundary, ended <=> final CRLF consumed, \
+on, consumed never beyond the coding, is_on_chunk_boundary() true in front of a size line and false with a chunk partly delivered (other positions measured only), ended <=> final CRLF consumed, \
 no stall once everything arrived, (0,0) after the end. non-trivial = every (coding, cut set, modes) run of the enumerations \
 (distinct by construction: counted by enumeration index, not hashed) plus random cases with a cut strictly inside a structural element \
 (distinct by decoded-choice digest).",
